@@ -214,3 +214,22 @@ def gen_guards():
                 cases += ['g tinc %d %d' % (c, p), 'g tarrow %d %d' % (c, p)]
     cases.append('g tdefinc')
     return sorted(set(cases))
+
+
+def gen_ubsan():
+    """`operator+=` boundary diffs for the small UBSan translation unit (every tier): Array ext/int capacity, SegmentedArray, DataRawIterator"""
+    M63 = 2 ** 63
+    cases = []
+    for c in (0, 1, 5, 33):
+        for idx in sorted(set((0, 1, c // 2, c))):
+            if idx > c: continue
+            ds = sorted(set((0, 1, -1, 2, c - idx, c - idx + 1, -idx, -idx - 1, M63 - 1, M63 - 2, M63 - idx, M63 - idx - 1, -M63, -M63 + 1, -M63 + idx)))
+            for d in ds:
+                if -M63 <= d < M63:
+                    for k in ('ar', 'ai', 'sa'):
+                        cases.append('g adv %s %d %d %d' % (k, c, idx, d))
+                    if c <= 5:
+                        cases.append('g rawadv %d %d %d' % (c, idx, d))
+            if c <= 5:
+                cases.append('g rawarrow %d %d' % (c, idx))
+    return sorted(set(cases))
